@@ -3,6 +3,7 @@ package zzverif
 // C17 — environment variables and custom functions behave as declared.
 
 import (
+	"regexp"
 	"errors"
 	"fmt"
 	"strconv"
@@ -162,10 +163,33 @@ type c17EvalCase struct {
 
 var c17Progs = []string{"$V", "$V.count()", "Patient.name.where($V.exists())", "Patient.name.select($V)", "probe($V)", "$V.probe0()", "Patient.name.select(probe0())", "%context", "%ucum", "%nope", "iif($V.exists(), $V, %ucum)", "$V.where(true)", "($V).select($this)", "%`context`", "%'ucum'"}
 
+var c17PlainName = regexp.MustCompile(`^[a-z][a-z0-9]*$`)
+
+// c17Ref: the reference to a variable - %name for a plain lower-case identifier that is no reserved
+// word, the delimited spelling %`name` otherwise
+func c17Ref(name string) string {
+	switch name {
+	case "div", "mod", "and", "or", "xor", "implies", "is", "as", "in", "contains", "true", "false":
+		return "%`" + name + "`"
+	}
+	if c17PlainName.MatchString(name) {
+		return "%" + name
+	}
+	return "%`" + name + "`"
+}
+
 func c17GenEval(s Src) c17EvalCase {
 	n := s.Range(0, 4)
 	c := c17EvalCase{Prog: pickOne(s, c17Progs), Time: s.Prob(30)}
-	names := []string{"a", "b", "c", "d"}
+	// names: plain identifiers, names only the delimited spelling can write (hyphens, blanks, digits
+	// first, non-ASCII), names the FHIR specification defines variables under (sct, loinc, vs-…, ext-…,
+	// resource, rootResource) and reserved words
+	names := []string{
+		pickOne(s, []string{"a", "a", "vs-status", "sct", "resource", "A", "a1", "with space", "x-y"}),
+		pickOne(s, []string{"b", "b", "ext-birthPlace", "loinc", "rootResource", "B", "_b", "ext-", "9b"}),
+		pickOne(s, []string{"c", "c", "vs-", "us-zip", "C", "ç", "vs"}),
+		pickOne(s, []string{"d", "d", "div", "and", "is", "ext", "d.e"}),
+	}
 	for i := 0; i < n; i++ {
 		v := c17Var{Name: names[i], Kind: pickOne(s, c17VarKinds)}
 		switch v.Kind {
@@ -255,7 +279,7 @@ func c17RunEval(ctx *Ctx, c c17EvalCase) {
 	var refVar *c17Var
 	if len(c.Vars) > 0 {
 		refVar = &c.Vars[c.Ref%len(c.Vars)]
-		ref = "%" + refVar.Name
+		ref = c17Ref(refVar.Name)
 	}
 	src = strings.ReplaceAll(src, "$V", ref)
 	e, cerr := fhirpath.Compile(src, compopts.AddFunction("probe", probe), compopts.AddFunction("probe0", probe0))
